@@ -15,7 +15,7 @@ struct Pat {
     chunk: u16,
 }
 
-const KINDS: [&str; 11] = [
+const KINDS: [&str; 13] = [
     "sorted-append",
     "front-insertion",
     "middle-insertion",
@@ -27,6 +27,14 @@ const KINDS: [&str; 11] = [
     "ordered-insert-by-split_by",
     "chunks-built-on-worker-threads-then-merged",
     "nodes-built-on-worker-threads-interleaved",
+    "every-k-th-created-node-of-one-thread",
+    "nodes-created-while-the-thread-is-winding-down",
+];
+
+/// strides at which a low-discrepancy / arithmetic-progression priority sequence lines up with itself: Fibonacci and Lucas numbers,
+/// powers of two and their neighbours
+const STRIDES: [usize; 40] = [
+    34, 55, 89, 144, 233, 377, 610, 987, 1597, 47, 76, 123, 199, 322, 521, 843, 1364, 29, 18, 21, 32, 64, 128, 256, 512, 1024, 31, 33, 63, 65, 127, 129, 255, 257, 511, 513, 100, 1000, 360, 1001,
 ];
 
 fn gcd(a: usize, b: usize) -> usize {
@@ -88,7 +96,7 @@ fn run_pat_inner(pat: &Pat) -> CaseResult {
     st.size = n as u64;
     let mut rng = SplitMix(pat.seed as u64 ^ 0xC16);
     let mut t: Treap<Lt> = Treap::new();
-    let kind = pat.kind % 11;
+    let kind = pat.kind % 13;
     st.label(KINDS[kind as usize]);
     // intermediate checkpoints at 10^k so that a degenerate tree is reported at a small size
     let mut next_cp = 100usize;
@@ -284,6 +292,67 @@ fn run_pat_inner(pat: &Pat) -> CaseResult {
                 cp(&t, len, false, &mut maxh)?;
             }
         }
+        11 => {
+            // K treaps grown in lock step on this thread: treap i receives the created nodes i, i+K, i+2K, ... (appended). Treaps 0 and
+            // K-1 are kept; the priorities of one treap are every K-th draw of the stream.
+            let k = if pat.chunk % 3 == 0 { 2 + (pat.chunk as usize / 3) % 2000 } else { STRIDES[(pat.chunk as usize / 3) % STRIDES.len()] };
+            let m = (n / k).clamp(600, 1500);
+            let mut last: Treap<Lt> = Treap::new();
+            for j in 0..m {
+                for i in 0..k {
+                    let node = Treap::from_item(Lt::new((j * k + i) as u32));
+                    if i == 0 {
+                        t = Treap::merge(std::mem::replace(&mut t, Treap::new()), node);
+                        len += 1;
+                    } else if i == k - 1 {
+                        last = Treap::merge(std::mem::replace(&mut last, Treap::new()), node);
+                    }
+                }
+            }
+            checkpoint(&last, m, pat, "treap K-1 of K grown in lock step", true)?;
+        }
+        12 => {
+            // nodes created from the destructor of another thread-local (registered before the thread's first node), i.e. while the
+            // thread is winding down; the treap is sent out through a channel and judged here
+            use std::sync::mpsc::{channel, Sender};
+            struct OnExit(std::cell::RefCell<Option<(Sender<Treap<Lt>>, usize)>>);
+            impl Drop for OnExit {
+                fn drop(&mut self) {
+                    if let Some((tx, m)) = self.0.borrow_mut().take() {
+                        let mut t: Treap<Lt> = Treap::new();
+                        for i in 0..m {
+                            t.insert_at(i, Lt::new(i as u32));
+                        }
+                        let _ = tx.send(t);
+                    }
+                }
+            }
+            thread_local! {
+                static EARLY: OnExit = OnExit(std::cell::RefCell::new(None));
+            }
+            let m = n.clamp(50, 3000);
+            let (tx, rx) = channel();
+            let warm = pat.chunk % 2 == 0;
+            std::thread::spawn(move || {
+                EARLY.with(|e| *e.0.borrow_mut() = Some((tx, m)));
+                if warm {
+                    // the thread has used its priority source before it winds down
+                    let _ = Treap::from_item(Lt::new(0));
+                }
+            })
+            .join()
+            .unwrap();
+            match rx.recv() {
+                Ok(got) => {
+                    t = got;
+                    len = m;
+                }
+                Err(_) => {
+                    // the platform did not run the destructor (or it could not send): nothing to judge
+                    st.label("thread-exit-destructor-did-not-deliver");
+                }
+            }
+        }
         _ => {
             // ordered insertion through split_by, ascending keys (the order that degenerates a plain BST)
             for i in 0..n {
@@ -295,7 +364,7 @@ fn run_pat_inner(pat: &Pat) -> CaseResult {
             }
         }
     }
-    let sh = checkpoint(&t, len, pat, "end", matches!(kind, 0 | 1 | 6 | 8 | 9))?;
+    let sh = checkpoint(&t, len, pat, "end", matches!(kind, 0 | 1 | 6 | 8 | 9 | 11 | 12))?;
     let _ = maxh.max(sh.height);
     if len >= 1000 {
         st.nontrivial = true;
@@ -314,7 +383,7 @@ fn real_main() {
     ctx.rule(
         "A case is an adversarial construction pattern (sorted appends, repeated front insertion, middle insertion, alternating ends, \
          split-and-swap rotations, remove/re-insert churn, concatenation of small treaps, random mix, ascending ordered insertion via \
-         split_by, chunks built on 2..n worker threads and merged, single nodes built on thousands of worker threads and merged column by column / in alternating direction / with a worker stride) with generated size, seed offset of the library's priority stream and chunk parameter, priorities drawn by the \
+         split_by, chunks built on 2..n worker threads and merged, single nodes built on thousands of worker threads and merged column by column / in alternating direction / with a worker stride, every K-th created node of one thread for generated K and for Fibonacci / Lucas / power-of-two strides, a treap built while its thread winds down) with generated size, seed offset of the library's priority stream and chunk parameter, priorities drawn by the \
          library. Oracle at 10^k checkpoints and at the end, from an iterative read-only walk over the public node fields: priorities heap-ordered on every edge in one direction for the whole tree (ties allowed), height <= \
          5*log2(n+1)+20. The C03-style small histories with library priorities add heap checks after every operation. Non-trivial = a \
          pattern instance with n >= 1000 (sizes staged 10^2..10^5 quick, ..10^6 thorough). Distinct = distinct pattern parameters.",
@@ -339,8 +408,8 @@ fn real_main() {
     for (n, reps) in stages {
         let name = format!("patterns-n{}", n);
         let lo = n - n / 4;
-        let strat = (0u8..11, lo..=n, any::<u32>(), any::<u16>()).prop_map(|(kind, n, seed, chunk)| Pat { kind, n, seed, chunk });
-        ctx.prop_cfg(&name, "treap-pattern", reps * 11, 64, strat, run_pat);
+        let strat = (0u8..13, lo..=n, any::<u32>(), any::<u16>()).prop_map(|(kind, n, seed, chunk)| Pat { kind, n, seed, chunk });
+        ctx.prop_cfg(&name, "treap-pattern", reps * 13, 64, strat, run_pat);
         if ctx.violations() > 0 {
             break;
         }
@@ -369,6 +438,13 @@ fn real_main() {
         ctx.exhaustive("thread-built-nodes-interleaved", "treap-pattern", "1500..6000 worker threads x 16..40 nodes each, merged column by column / alternating / strided", false, fixed, run_pat);
         let strat = (60_000u32..=160_000, any::<u32>(), any::<u16>()).prop_map(|(n, seed, chunk)| Pat { kind: 10, n, seed, chunk });
         ctx.prop_cfg("thread-built-nodes-interleaved-generated", "treap-pattern", ctx.n(6, 120), 16, strat, run_pat);
+    }
+    if ctx.violations() == 0 {
+        // every K-th node of one thread's creation stream, for the strides where structured priority sequences line up with themselves
+        let strided: Vec<Pat> = (0..STRIDES.len()).map(|i| Pat { kind: 11, n: 100_000, seed: 100 + i as u32, chunk: (3 * i + 1) as u16 }).collect();
+        ctx.exhaustive("every-k-th-created-node", "treap-pattern", "K treaps grown in lock step on one thread for K in Fibonacci / Lucas numbers, powers of two and neighbours (40 strides), 600..1500 nodes each", false, strided, run_pat);
+        let exits = vec![Pat { kind: 12, n: 2000, seed: 1, chunk: 0 }, Pat { kind: 12, n: 2000, seed: 2, chunk: 1 }, Pat { kind: 12, n: 300, seed: 3, chunk: 1 }];
+        ctx.exhaustive("nodes-created-at-thread-exit", "treap-pattern", "a treap built from the destructor of another thread-local while the thread winds down (priority source used before / never used before)", false, exits, run_pat);
     }
     if ctx.violations() == 0 {
         // small histories with library priorities: heap order after every operation
